@@ -238,7 +238,26 @@ fn hostile_item(r: &mut Rng, thorough: bool) -> Vec<u8> {
         5 => r.pick(&[&b"*2\r\n$3\r\nGET\r\n:1\r\n"[..], b"*3\r\n$3\r\nSET\r\n+k\r\n$1\r\nv\r\n", b"*2\r\n:3\r\n$1\r\nk\r\n", b"*2\r\n$3\r\nDEL\r\n$-1\r\n", b"*2\r\n$3\r\nGET\r\n*0\r\n"]).to_vec(),
         6 => r.pick(&[&b"*2\r\n$3\r\nGET\r\n$2\r\n\xff\xfe\r\n"[..], b"*3\r\n$3\r\nSET\r\n$2\r\n\xc3\x28\r\n$1\r\nv\r\n", b"*2\r\n$3\r\nDEL\r\n$1\r\n\x80\r\n"]).to_vec(),
         7 => r.pick(&[&b"*2\r\n$3\r\nGET\r\n$5\r\nab"[..], b"*3\r\n$3\r\nSET\r\n$1\r\nk\r\n$100\r\nshort", b"*2\r\n$3\r\nGE", b"*", b"$", b":", b":-", b":+", b"$1", b"*2\r"]).to_vec(),
-        8 => r.pick(&[&b"$9223372036854775807\r\n"[..], b"*9223372036854775807\r\n", b"$9223372036854775806\r\nx", b"*4611686018427387904\r\n", b"$-5\r\n", b"*-1\r\n", b"$-0\r\n", b"*-0\r\n"]).to_vec(),
+        8 => r
+            .pick(&[
+                &b"$9223372036854775807\r\n"[..],
+                b"*9223372036854775807\r\n",
+                b"$9223372036854775806\r\nx",
+                b"*4611686018427387904\r\n",
+                // lengths whose allocation would not overflow but cannot be satisfied
+                b"*100000000000\r\n",
+                b"*4000000000000\r\n",
+                b"*100000000000000000\r\n",
+                b"*2\r\n*50000000000\r\n",
+                b"$100000000000\r\n",
+                b"$4000000000000000\r\nab",
+                b"*3\r\n$3\r\nSET\r\n$1\r\nk\r\n$90000000000\r\n",
+                b"$-5\r\n",
+                b"*-1\r\n",
+                b"$-0\r\n",
+                b"*-0\r\n",
+            ])
+            .to_vec(),
         9 => r.pick(&[&b"$+\r\n"[..], b"$-\r\n", b":-\r\n", b":+\r\n", b":\r\n", b"$\r\n", b"*\r\n", b"*+2\r\n$3\r\nGET\r\n$1\r\nk\r\n"]).to_vec(),
         10 => r.pick(&[&b"$99999999999999999999\r\n"[..], b":99999999999999999999\r\n", b":-99999999999999999999\r\n", b"*99999999999999999999\r\n", b":9223372036854775808\r\n", b":-9223372036854775809\r\n"]).to_vec(),
         11 => {
@@ -779,7 +798,8 @@ pub fn generate(check: &str, tier: &str, seed: u64) -> Scenario {
                     let first = hostile_item(&mut r, thorough);
                     // a truncated frame could be completed into a valid command by whatever
                     // follows it, so more garbage only follows items that are complete
-                    let truncated = !first.ends_with(b"\n") || first.starts_with(b"$9") || first.starts_with(b"*9") || first.starts_with(b"*4");
+                    let huge = |b: &[u8]| b.windows(12).any(|w| w.iter().all(|c| c.is_ascii_digit()));
+                    let truncated = !first.ends_with(b"\n") || huge(&first);
                     steps.push(CStep::SendRaw(first));
                     if !truncated && r.one_in(3) {
                         steps.push(CStep::SendRaw(hostile_item(&mut r, false)));
